@@ -31,7 +31,7 @@ CLAIMS = {
 
 NEGATIVE = ["nodirty_t", "nodirty_f", "nodirty_r", "nodirty_ca", "nodirty_acc", "nodirty_am", "nodirty_ma",
             "guard_filter_kind", "guard_filter_prefix", "guard_transform_class", "guard_transform_prefix",
-            "guard_dof_x_only", "gradient_no_refresh", "map_not_validated"]
+            "guard_transform_wrong_pair", "guard_dof_x_only", "guard_ao_wrong_pair", "gradient_no_refresh", "map_not_validated"]
 ORDER = ["t", "f", "r", "c", "sc", "cc", "am", "ao", "ca", "acc", "pal", "d", "dof", "ma"]
 TYPES = {"bits": 0, "indexed": 1, "gradient": 2, "solid": 3}
 ROLES = {"src": 0, "mask": 1, "dst": 2}
@@ -134,6 +134,12 @@ HANDWRITTEN = [
                                          ("am", 2, 1), ("acc", 0, 1), ("c", 0, 1), ("am", 0, 1)]),
     hand("bits", "dst", "2 4 0 16 18", [("d", 1, 1), ("dof", 1, 1), ("dof", 3, 1), ("dof", 2, 1), ("d", 2, 1), ("d", 0, 1),
                                           ("dof", 0, 1)]),
+    # coinciding values: the new y equals the old x, exchanged coordinates
+    hand("bits", "dst", "0 0 0 0 24", [("am", 1, 1), ("ao", 1, 1), ("ao", 4, 1), ("ao", 3, 1), ("ao", 1, 1), ("ao", 8, 1),
+                                         ("ao", 2, 1), ("ao", 6, 1), ("ao", 0, 1)]),
+    hand("bits", "src", "0 0 0 0 25", [("am", 2, 1), ("ao", 1, 1), ("ao", 4, 1), ("ao", 3, 1), ("t", 2, 1), ("t", 15, 1),
+                                         ("t", 12, 1), ("t", 16, 1), ("t", 13, 1), ("f", 2, 1), ("f", 12, 1), ("f", 13, 1),
+                                         ("f", 7, 1), ("f", 14, 1), ("f", 8, 1), ("f", 15, 1)]),
     hand("bits", "mask", "0 0 0 0 19", [("ca", 1, 1), ("ca", 0, 1), ("acc", 1, 1), ("ca", 1, 1), ("acc", 0, 1)]),
     hand("bits", "src", "1 0 0 0 20", [("c", 1, 0), ("sc", 1, 0), ("cc", 1, 1), ("c", 2, 1), ("c", 3, 1), ("cc", 0, 1),
                                          ("cc", 1, 0), ("sc", 0, 1), ("c", 0, 1)]),
@@ -206,14 +212,14 @@ def run(prop, args):
     chk.add_tlc(r, "behaviour generation (ImageGen Focus: every pair of values of every setter, rendering between)")
     groups = {}
     for b in foc:
-        groups.setdefault((b[1]["j"], b[1]["v"], b[2]["v"]), []).append(b)
+        groups.setdefault((b[-2]["j"], b[-2]["v"], b[-1]["v"]), []).append(b)      # (b[1:-2] is the prelude)
     pairs = []
     for key in sorted(groups):
         cand = groups[key]
         pref = [b for b in cand if (b[0]["type"], b[0]["role"]) in PREF[key[0]]]
         rest = [b for b in cand if (b[0]["type"], b[0]["role"]) not in PREF[key[0]]]
         if quick:
-            pairs += rng.sample(pref, min(len(pref), 2)) + rng.sample(rest, min(len(rest), 1))
+            pairs += rng.sample(pref, min(len(pref), 1 if key[0] in ("t", "f") else 2)) + rng.sample(rest, min(len(rest), 1))
         else:
             pairs += cand
     chk.extra["setter_value_pairs"] = {"pairs": len(groups), "histories_replayed": len(pairs)}
@@ -230,7 +236,7 @@ def run(prop, args):
     for k, b in enumerate(bfs):
         execs.append(to_script(b, "bfs%d" % k, rng))
     for k, b in enumerate(pairs + pairs3):
-        execs.append(to_script(b, "pair%d" % k, rng, wide_dst=(b[1]["j"] in ("d", "dof") and b[0]["role"] == "dst")))
+        execs.append(to_script(b, "pair%d" % k, rng, wide_dst=(b[-1]["j"] in ("d", "dof") and b[0]["role"] == "dst")))
     for k, b in enumerate(rnd):
         for rep in range(1 if quick else 2):        # the same history under different formats / operators / roles' data
             execs.append(to_script(b, "gen%d_%d" % (k, rep), rng))
